@@ -1,6 +1,6 @@
 (* C18: external_gates keeps the named gates opaque and changes nothing else (visitor model). *)
 From Coq Require Import ZArith List Bool String Lia.
-From Verif Require Import BGate PyVal Ast State Unroll.
+From Verif Require Import Aexp BGate PyVal Ast State GatesGen GateLib Unroll.
 Import ListNotations.
 Open Scope Z_scope.
 
@@ -67,3 +67,153 @@ Proof.
   unfold bindM at 1. unfold bindM at 1. rewrite He. reflexivity.
 Qed.
 End Ext.
+
+(* ---------- C01 (inlining clause, library gates): what a call of a library gate emits ---------- *)
+Section BasicGate.
+Variable call_rec : string -> list expr -> M (pyval * list stmt).
+
+Definition group_args (params : list pyval) (tg : list bitref) : list (garg bitref) :=
+  map GA (map AVar (seq 0 (List.length params))) ++ map GQ tg.
+
+(* one broadcast group: the table's decomposition callable at the evaluated parameters and the resolved operands *)
+Definition group_lowers (f : list (garg bitref) -> option (list (bgate bitref))) (params : list pyval)
+  (tg : list bitref) (o : list stmt) : Prop :=
+  exists bgs, f (group_args params tg) = Some bgs /\ mapR (stmt_of_bgate params) bgs = Ok o.
+
+Lemma concat_groups f params targets : forall s out s1,
+  concatMM (fun tg =>
+     match f (group_args params tg) with
+     | None => verr
+     | Some bgs => lift (match mapR (stmt_of_bgate params) bgs with
+                         | Err (EInternal KType) => Err EValidation
+                         | r => r
+                         end)
+     end) targets s = Ok (out, s1) ->
+  exists groups, Forall2 (group_lowers f params) targets groups /\ out = List.concat groups.
+Proof.
+  induction targets as [|tg targets IH]; intros s out s1 E.
+  - cbn in E. unfold ret in E. inversion E; subst. exists []. split; [constructor|reflexivity].
+  - cbn [concatMM] in E. apply bind_ok in E as (o & s2 & Eo & E). apply bind_ok in E as (os & s3 & Eos & E).
+    unfold ret in E. inversion E; subst.
+    destruct (IH _ _ _ Eos) as (groups & HF & ->).
+    exists (o :: groups). split; [|reflexivity]. constructor; [|exact HF].
+    destruct (f (group_args params tg)) as [bgs|] eqn:Ef; [|discriminate Eo].
+    exists bgs. split; [exact Ef|].
+    unfold lift in Eo. destruct (mapR (stmt_of_bgate params) bgs) as [l|e] eqn:Em.
+    + inversion Eo; subst. reflexivity.
+    + destruct e as [| [] | |]; discriminate Eo.
+Qed.
+
+(* a (non-inverted) call of a library gate emits, for every broadcast group of its resolved operands in order,
+   exactly the statements of the decomposition that GatesGen.v (regenerated from maps.py) holds for that name *)
+Theorem basic_gate_emits_table_decomposition name args qubits out s s' d np f arity :
+  lookup_op bitref name = Some (Some (d, np, f), arity) ->
+  visit_basic_gate false call_rec name args qubits false s = Ok (out, s') ->
+  exists params targets groups,
+    Forall2 (group_lowers f params) targets groups /\ out = List.concat groups.
+Proof.
+  intros El H. unfold visit_basic_gate in H. cbn [negb] in H. rewrite El in H.
+  apply bind_ok in H as ([[entry arity0] invert] & s1 & E1 & H).
+  unfold ret in E1. inversion E1; subst. clear E1.
+  apply bind_ok in H as (params & s2 & _ & H).
+  apply bind_ok in H as (targets & s3 & _ & H).
+  apply bind_ok in H as (out0 & s4 & Ec & H).
+  apply bind_ok in H as (u & s5 & _ & H).
+  unfold emit, ret in H. inversion H; subst.
+  apply concat_groups in Ec as (groups & HF & ->).
+  exists params, targets, groups. auto.
+Qed.
+End BasicGate.
+
+(* ---------- C01 / C06 (inlining clause, custom gates): what a call of a custom gate expands to ---------- *)
+Section CustomGate.
+Variable visit_rec : stmt -> M (list stmt).
+Variable call_rec : string -> list expr -> M (pyval * list stmt).
+
+(* a formal qubit of the definition replaced by the actual qubit bound to it *)
+Definition actual_of (qmap : list (string * bitref)) (q q' : qarg) : Prop :=
+  exists x b, q = QId x /\ sget x qmap = Some b /\ q' = qarg_of b.
+
+Lemma map_formals qmap gqs : forall s gqs' s1,
+  mapMM (fun q => match q with
+                  | QIdx _ _ => verr
+                  | QId x => match sget x qmap with Some b => ret (qarg_of b) | None => verr end
+                  end) gqs s = Ok (gqs', s1) ->
+  s1 = s /\ Forall2 (actual_of qmap) gqs gqs'.
+Proof.
+  induction gqs as [|q gqs IH]; intros s gqs' s1 E.
+  - cbn in E. unfold ret in E. inversion E; subst. split; [reflexivity|constructor].
+  - cbn [mapMM] in E. apply bind_ok in E as (y & s2 & Ey & E). apply bind_ok in E as (ys & s3 & Eys & E).
+    unfold ret in E. inversion E; subst.
+    destruct q as [x|x idx]; [|discriminate Ey].
+    destruct (sget x qmap) as [b|] eqn:Ex; [|discriminate Ey].
+    unfold ret in Ey. inversion Ey; subst.
+    destruct (IH _ _ _ Eys) as [-> HF]. split; [reflexivity|].
+    constructor; [|exact HF]. exists x, b. auto.
+Qed.
+
+(* the member [op'] visited for a member [op] of the definition's body *)
+Inductive expands (name : string) (pmap : list (string * pyval)) (qmap : list (string * bitref)) (inverse : bool)
+  : stmt -> stmt -> Prop :=
+| ex_gate mods gname gargs gqs gqs' :
+    gname <> name -> Forall2 (actual_of qmap) gqs gqs' ->
+    expands name pmap qmap inverse (SGate mods gname gargs gqs)
+            (SGate (if inverse then mods ++ [MInv] else mods) gname (map (subst_params pmap) gargs) gqs')
+| ex_phase mods arg gqs gqs' :
+    (gqs = [] -> gqs' = map (fun p => qarg_of (snd p)) qmap) ->
+    (gqs <> [] -> Forall2 (actual_of qmap) gqs gqs') ->
+    expands name pmap qmap inverse (SPhase mods arg gqs)
+            (SPhase (if inverse then mods ++ [MInv] else mods) (subst_params pmap arg) gqs').
+
+(* a call of a custom gate visits, for the members of the definition's body in order -- in REVERSE order with
+   `inv` appended to each when the call is inverted --, the member with the call's parameter values substituted
+   and its formal qubits replaced by the actual ones, and emits what those visits emit, concatenated *)
+Theorem custom_gate_expands_its_body name args qubits inverse out s s' :
+  visit_custom_gate false visit_rec call_rec name args qubits inverse s = Ok (out, s') ->
+  exists gd pmap qmap outs,
+    sget name (gates s) = Some gd /\
+    out = List.concat outs /\
+    Forall2 (fun op o => exists op' s1 s2, expands name pmap qmap inverse op op' /\ visit_rec op' s1 = Ok (o, s2))
+            (if inverse then rev (g_body gd) else g_body gd) outs.
+Proof.
+  intros H. unfold visit_custom_gate in H.
+  apply bind_ok in H as (s0 & s0' & E0 & H). unfold getst in E0. inversion E0; subst. clear E0.
+  destruct (sget name (gates s0')) as [gd|] eqn:Eg; [|discriminate H].
+  apply bind_ok in H as (bits & s1 & _ & H).
+  apply bind_ok in H as (u1 & s2 & _ & H).
+  apply bind_ok in H as (u2 & s3 & _ & H).
+  cbv zeta in H.
+  apply bind_ok in H as (pvals & s4 & _ & H).
+  apply bind_ok in H as (s5 & s5' & _ & H).
+  apply bind_ok in H as (u3 & s6 & _ & H).
+  apply bind_ok in H as (u4 & s7 & _ & H).
+  apply bind_ok in H as (u5 & s8 & _ & H).
+  apply bind_ok in H as (out0 & s9 & Ec & H).
+  apply bind_ok in H as (u6 & s10 & _ & H).
+  apply bind_ok in H as (u7 & s11 & _ & H).
+  unfold emit, ret in H. inversion H; subst. clear H.
+  set (pmap := fold_left (fun acc p => sset (fst p) (snd p) acc) (combine (g_params gd) pvals) []) in *.
+  set (qmap := dedup_names_last (combine (g_qubits gd) bits)) in *.
+  exists gd, pmap, qmap.
+  revert Ec. generalize (if inverse then rev (g_body gd) else g_body gd) as body. generalize s8 as sa. generalize s9 as sb.
+  intros sb sa body. revert sa sb out. induction body as [|op body IH]; intros sa sb out Ec.
+  - cbn in Ec. unfold ret in Ec. inversion Ec; subst. exists []. split; [reflexivity|]. split; [reflexivity|constructor].
+  - cbn [concatMM] in Ec. apply bind_ok in Ec as (o & sc & Eo & Ec). apply bind_ok in Ec as (os & sd & Eos & Ec).
+    unfold ret in Ec. inversion Ec; subst.
+    destruct (IH _ _ _ Eos) as (outs & _ & -> & HF).
+    exists (o :: outs). split; [reflexivity|]. split; [reflexivity|]. constructor; [|exact HF].
+    destruct op; try discriminate Eo.
+    + (* SGate *)
+      apply bind_ok in Eo as (u & se & Eu & Eo). unfold guard in Eu.
+      destruct (negb (String.eqb name0 name)) eqn:En; [|discriminate Eu]. unfold ret in Eu; inversion Eu; subst.
+      cbv zeta in Eo. apply bind_ok in Eo as (gqs' & sf & Eq & Eo).
+      apply map_formals in Eq as [-> HQ].
+      eexists _, _, _. split; [|exact Eo]. constructor; [|exact HQ].
+      intros ->. rewrite String.eqb_refl in En. discriminate.
+    + (* SPhase *)
+      cbv zeta in Eo. apply bind_ok in Eo as (gqs' & sf & Eq & Eo).
+      eexists _, _, _. split; [|exact Eo]. constructor.
+      * intros ->. unfold ret in Eq. inversion Eq; subst. reflexivity.
+      * intros Hne. destruct qubits0 as [|q0 qs0]; [congruence|]. apply map_formals in Eq as [_ HQ]. exact HQ.
+Qed.
+End CustomGate.
